@@ -1,4 +1,4 @@
-"""Inline view of a function: the bodies of *single-use private helpers* spliced in at their call site.
+"""Inline view of a function: the bodies of *new private helpers* (one or a few call sites) spliced in at their call sites.
 
 Why: rules are anchored at the function that performs a protocol (KeyValueStore::write, Version::load, ..).  Moving a few of its
 statements into a fresh private helper is the commonest behaviour-preserving edit, and it makes every rule that looks for those
@@ -35,7 +35,7 @@ def _call_sites(prog):
                         for o in _operands(st["rv"]):
                             c = o.get("c") if o.get("k") == "const" else None
                             if c and c.get("fn"):
-                                idx[c["fn"]] = idx.get(c["fn"], 0) + 2
+                                idx[c["fn"]] = idx.get(c["fn"], 0) + 1000   # address taken: never looked through
         prog._inline_sites = idx
     return idx
 
@@ -52,6 +52,8 @@ def _operands(rv):
 
 
 _KNOWN = None
+MAX_SITES = 6       # a new private helper with more call sites than this stays a function of its own
+MAX_BLOCKS = 400
 
 
 def known_fns():
@@ -63,6 +65,57 @@ def known_fns():
         p = os.path.join(os.path.dirname(os.path.dirname(os.path.dirname(os.path.abspath(__file__)))), "rules", "known_fns.txt")
         _KNOWN = frozenset(l.strip() for l in open(p)) if os.path.exists(p) else False
     return _KNOWN or None
+
+
+def closure_parent_skey(g):
+    return re.sub(r"(::\{closure#\d+\})+$", "", g.skey)
+
+
+def closure_shape(g):
+    """A fingerprint of a closure body that survives renumbering and moving: its calls, statement kinds and constants, in block order."""
+    import hashlib
+    from .facts import callee_skey
+    h = hashlib.sha1()
+    for b in g.blocks:
+        if b.cleanup:
+            continue
+        for st in b.st:
+            if st.get("s") == "=":
+                rv = st["rv"]
+                h.update(("=%s%s%s;" % (rv.get("r"), rv.get("op", ""), rv.get("variant", ""))).encode())
+        t = b.term
+        h.update((t["t"] + ":" + (callee_skey(t) or "") + "|").encode() if t["t"] == "call" else (t["t"] + "|").encode())
+    return h.hexdigest()[:16]
+
+
+_KNOWN_CL = None
+
+
+def known_closures():
+    global _KNOWN_CL
+    if _KNOWN_CL is None:
+        import os
+        p = os.path.join(os.path.dirname(os.path.dirname(os.path.dirname(os.path.abspath(__file__)))), "rules", "known_closures.txt")
+        _KNOWN_CL = frozenset(l.rstrip("\n") for l in open(p)) if os.path.exists(p) else False
+    return _KNOWN_CL or None
+
+
+def _moved(prog, g, known):
+    """g is not in the table, but exactly one function of the table in g's crate has g's name and that function no longer exists: g is
+    that function, moved."""
+    idx = getattr(prog, "_known_names", None)
+    if idx is None:
+        idx = {}
+        for k in known:
+            if k.startswith("<"):
+                continue
+            crate = k.split("::", 1)[0]
+            idx.setdefault((crate, k.rsplit("::", 1)[-1]), []).append(k)
+        prog._known_names = idx
+    if g.skey.startswith("<"):
+        return False
+    c = idx.get((g.crate, g.skey.rsplit("::", 1)[-1]), [])
+    return len(c) == 1 and not prog.by_skey.get(c[0])
 
 
 def candidates(prog, f, keep=None):
@@ -86,8 +139,10 @@ def candidates(prog, f, keep=None):
             continue
         if g.skey in known:
             continue            # it was there when the rules were written: rules may name it, and nothing changes on that tree
-        if sites.get(g.key, 0) != 1:
-            continue
+        if _moved(prog, g, known):
+            continue            # a known function under a new path (a nested fn hoisted, moved to another impl): rules find it by name
+        if not 1 <= sites.get(g.key, 0) <= MAX_SITES or len(g.blocks) > MAX_BLOCKS:
+            continue            # a few call sites (a block shared by siblings was pulled out), each gets its own copy
         if rx is not None and rx.search(g.skey):
             continue
         if len(t["args"]) != g.argc:
@@ -180,6 +235,350 @@ def _remap_succs(t, base):
             t["to"] += base
 
 
+
+# ------------------------------------------------------------------------------------------------
+# Combinator lowering: `x.and_then(|v| body)` seen as `match x { Ok(v) => body, Err(e) => Err(e) }`
+#
+# on:     the variant of x for which the closure runs          arg:    what the closure is handed (value / ref / none)
+# res:    what the call evaluates to on that arm: "raw" (the closure's result), ("wrap", adt, variant), or "self" (x itself)
+# other:  the other arm: ("wrap", adt, variant) of x's payload, ("unit", adt, variant), "payload", or "self"
+R_, O_ = "core::result::Result", "core::option::Option"
+COMBINATORS = {
+    R_ + "::and_then": dict(adt=R_, on="Ok", arg="value", res="raw", other=("wrap", R_, "Err")),
+    R_ + "::map": dict(adt=R_, on="Ok", arg="value", res=("wrap", R_, "Ok"), other=("wrap", R_, "Err")),
+    R_ + "::map_err": dict(adt=R_, on="Err", arg="value", res=("wrap", R_, "Err"), other=("wrap", R_, "Ok")),
+    R_ + "::or_else": dict(adt=R_, on="Err", arg="value", res="raw", other=("wrap", R_, "Ok")),
+    R_ + "::inspect_err": dict(adt=R_, on="Err", arg="ref", res="self", other="self"),
+    R_ + "::inspect": dict(adt=R_, on="Ok", arg="ref", res="self", other="self"),
+    R_ + "::unwrap_or_else": dict(adt=R_, on="Err", arg="value", res="raw", other="payload"),
+    O_ + "::map": dict(adt=O_, on="Some", arg="value", res=("wrap", O_, "Some"), other=("unit", O_, "None")),
+    O_ + "::and_then": dict(adt=O_, on="Some", arg="value", res="raw", other=("unit", O_, "None")),
+    O_ + "::ok_or_else": dict(adt=O_, on="None", arg="none", res=("wrap", R_, "Err"), other=("wrap", R_, "Ok")),
+    O_ + "::unwrap_or_else": dict(adt=O_, on="None", arg="none", res="raw", other="payload"),
+    O_ + "::or_else": dict(adt=O_, on="None", arg="none", res="raw", other=("wrap", O_, "Some")),
+    O_ + "::inspect": dict(adt=O_, on="Some", arg="ref", res="self", other="self"),
+}
+VARIANTS = {R_: ("Ok", "Err"), O_: ("None", "Some")}
+
+
+def _single_def(f, l):
+    out = []
+    for b in f.blocks:
+        for st in b.st:
+            if st.get("s") == "=" and st["lhs"]["l"] == l and not st["lhs"]["p"]:
+                out.append(st)
+        t = b.term
+        if t["t"] == "call" and t["dest"]["l"] == l:
+            out.append(t)
+    return out[0] if len(out) == 1 else None
+
+
+def _type_args(ty):
+    """top-level generic arguments of `path<A, B>`"""
+    i = ty.find("<")
+    if i < 0 or not ty.endswith(">"):
+        return []
+    out, depth, cur = [], 0, ""
+    for ch in ty[i + 1:-1]:
+        if ch in "<([":
+            depth += 1
+        elif ch in ">)]":
+            depth -= 1
+        if ch == "," and depth == 0:
+            out.append(cur.strip())
+            cur = ""
+        else:
+            cur += ch
+    if cur.strip():
+        out.append(cur.strip())
+    return out
+
+
+def lower_candidates(prog, f):
+    """[(block index, spec, closure Fn, closure local)] for the combinator calls of f whose closure is new (not in known_closures.txt)."""
+    from .facts import callee_skey
+    known = known_closures()
+    if known is None:
+        return []
+    out = []
+    for b, t in f.calls():
+        spec = COMBINATORS.get(callee_skey(t) or "")
+        if spec is None or t.get("to") is None or len(t["args"]) != 2:
+            continue
+        x, c = t["args"]
+        if x.get("k") != "move" or x["pl"]["p"] or c.get("k") != "move" or c["pl"]["p"]:
+            continue
+        if not f.locals[x["pl"]["l"]].startswith(spec["adt"] + "<"):
+            continue
+        d = _single_def(f, c["pl"]["l"])
+        if d is None or d.get("s") != "=" or d["rv"].get("r") != "agg" or not d["rv"].get("closure"):
+            continue
+        g = prog.fns.get(d["rv"]["closure"])
+        if g is None:
+            cands = [h for h in prog.fns.values() if h.skey == d["rv"]["closure"] or h.key == d["rv"]["closure"]]
+            g = cands[0] if len(cands) == 1 else None
+        if g is None or not g.blocks or len(g.blocks) > MAX_BLOCKS:
+            continue
+        if "%s\t%s" % (closure_parent_skey(g), closure_shape(g)) in known:
+            continue            # it was there when the rules were written
+        want = {"value": 2, "ref": 2, "none": 1}[spec["arg"]]
+        if g.argc != want:
+            continue
+        out.append((b.idx, spec, g, c["pl"]["l"]))
+    return out
+
+
+def _lower(d, bidx, spec, g, cl, f_locals):
+    """Rewrite block bidx of the function dict d: the combinator call becomes a test of x's variant with the closure body on one arm."""
+    blk = d["blocks"][bidx]
+    t = blk["term"]
+    sp = t.get("sp") or blk["tsp"]
+    x = t["args"][0]["pl"]
+    dest, to = t["dest"], t["to"]
+    adt = spec["adt"]
+    xty = d["locals"][x["l"]]
+    targs = _type_args(xty)
+    vidx = {v: i for i, v in enumerate(VARIANTS[adt])}
+    payload_ty = {"Ok": targs[0] if targs else "", "Err": targs[1] if len(targs) > 1 else "", "Some": targs[0] if targs else "", "None": ""}
+    on = spec["on"]
+    oth = [v for v in VARIANTS[adt] if v != on][0]
+
+    def payload(variant):
+        return {"l": x["l"], "p": [{"dc": variant}, {"f": "0", "of": "%s::%s" % (adt, variant), "ty": payload_ty[variant]}]}
+
+    def new_local(ty):
+        d["locals"].append(ty)
+        return len(d["locals"]) - 1
+
+    def stmt(lhs, rv):
+        return {"s": "=", "lhs": lhs, "rv": rv, "sp": sp, "inl": g.key}
+
+    def agg(a, variant, ops):
+        return {"r": "agg", "adt": a, "variant": variant, "fields": ["0"] if ops else [], "ops": ops}
+    dl = new_local("isize")
+    off = len(d["locals"])
+    base = len(d["blocks"])
+    d["locals"].extend(g.locals)
+    for n, pl in g.names:
+        npl = copy.deepcopy(pl)
+        _remap_place(npl, off)
+        d["names"].append([n, npl])
+    b_on, b_oth = base + len(g.blocks), base + len(g.blocks) + 1
+    blk["st"].append(stmt({"l": dl, "p": []}, {"r": "discr", "pl": {"l": x["l"], "p": []}}))
+    blk["term"] = {"t": "switch", "discr": {"k": "move", "pl": {"l": dl, "p": []}}, "arms": [[vidx[on], b_on]], "otherwise": b_oth, "sp": sp}
+    # the closure body
+    inl_err = []
+    for gb in g.blocks:
+        st = copy.deepcopy(gb.st)
+        tm = copy.deepcopy(gb.term)
+        _walk(st, off)
+        _walk(tm, off)
+        _remap_succs(tm, base)
+        nb = {"st": st, "term": tm, "cleanup": gb.cleanup, "tsp": gb.tsp}
+        if tm["t"] == "return":
+            r = {"k": "move", "pl": {"l": off, "p": []}}
+            if spec["res"] == "raw":
+                nb["st"].append(stmt(copy.deepcopy(dest), {"r": "use", "a": r}))
+            elif spec["res"] == "self":
+                nb["st"].append(stmt(copy.deepcopy(dest), {"r": "use", "a": {"k": "move", "pl": {"l": x["l"], "p": []}}}))
+            else:
+                nb["st"].append(stmt(copy.deepcopy(dest), agg(spec["res"][1], spec["res"][2], [r])))
+            nb["term"] = {"t": "goto", "to": to, "sp": gb.tsp}
+        d["blocks"].append(nb)
+    # the arm that runs the closure: bind its environment and its argument, enter the body
+    env_ty = g.locals[1]
+    st_on = []
+    if env_ty.startswith("&"):
+        st_on.append(stmt({"l": off + 1, "p": []}, {"r": "ref", "mut": env_ty.startswith("&mut") or "mut " in env_ty[:12], "pl": {"l": cl, "p": []}}))
+    else:
+        st_on.append(stmt({"l": off + 1, "p": []}, {"r": "use", "a": {"k": "move", "pl": {"l": cl, "p": []}}}))
+    if spec["arg"] == "value":
+        st_on.append(stmt({"l": off + 2, "p": []}, {"r": "use", "a": {"k": "move", "pl": payload(on)}}))
+    elif spec["arg"] == "ref":
+        st_on.append(stmt({"l": off + 2, "p": []}, {"r": "ref", "mut": False, "pl": payload(on)}))
+    d["blocks"].append({"st": st_on, "term": {"t": "goto", "to": base, "sp": sp}, "cleanup": False, "tsp": sp})
+    # the other arm
+    o = spec["other"]
+    if o == "self":
+        st_o = [stmt(copy.deepcopy(dest), {"r": "use", "a": {"k": "move", "pl": {"l": x["l"], "p": []}}})]
+    elif o == "payload":
+        st_o = [stmt(copy.deepcopy(dest), {"r": "use", "a": {"k": "move", "pl": payload(oth)}})]
+    elif o[0] == "unit":
+        st_o = [stmt(copy.deepcopy(dest), agg(o[1], o[2], []))]
+    else:
+        st_o = [stmt(copy.deepcopy(dest), agg(o[1], o[2], [{"k": "move", "pl": payload(oth)}]))]
+    d["blocks"].append({"st": st_o, "term": {"t": "goto", "to": to, "sp": sp}, "cleanup": False, "tsp": sp})
+
+
+_VARIANT_DISCR = {("core::option::Option", "None"): 0, ("core::option::Option", "Some"): 1,
+                  ("core::result::Result", "Ok"): 0, ("core::result::Result", "Err"): 1}
+
+
+def _known_value(st, r):
+    """The statement assigns a statically known value to the whole of local r: ('int', v) for a bool/integer constant, ('variant', d) for
+    an Option / Result aggregate (its discriminant)."""
+    if st.get("s") != "=" or st["lhs"]["l"] != r or st["lhs"]["p"]:
+        return None
+    rv = st["rv"]
+    if rv.get("r") == "use" and rv["a"].get("k") == "const" and isinstance(rv["a"]["c"].get("v"), int):
+        return ("int", rv["a"]["c"]["v"])
+    if rv.get("r") == "agg" and (rv.get("adt"), rv.get("variant")) in _VARIANT_DISCR:
+        return ("variant", _VARIANT_DISCR[(rv.get("adt"), rv.get("variant"))])
+    return None
+
+
+def _switch_target(tblk, dest, known):
+    """tblk tests `dest` (switch on it, or on its discriminant computed in the block): the successor taken for the known value."""
+    t = tblk["term"]
+    if t["t"] != "switch" or t["discr"].get("k") not in ("copy", "move") or t["discr"]["pl"]["p"]:
+        return None
+    dl = t["discr"]["pl"]["l"]
+    sts = [x for x in tblk["st"] if x.get("s") == "="]
+    if known[0] == "int":
+        if sts or dl != dest["l"] or dest["p"]:
+            return None
+    else:
+        if len(sts) != 1 or sts[0]["lhs"]["l"] != dl or sts[0]["lhs"]["p"] or sts[0]["rv"].get("r") != "discr":
+            return None
+        pl = sts[0]["rv"]["pl"]
+        if pl["l"] != dest["l"] or pl["p"] != dest["p"]:
+            return None
+    for v, b in t["arms"]:
+        if v == known[1]:
+            return b
+    return t["otherwise"]
+
+
+def _thread_known_returns(d, lo, hi, off, dest, to):
+    """Jump threading across a splice: a path of the helper that returns a known constant (`true`, `None`, `Err(..)`) and is tested by the
+    caller right after the call continues at the arm that matches, not at both.  Without this the caller's `if helper(..) { A } else { B }`
+    would let the helper's `false` paths reach A.  The blocks between the assignment and the return (drops) are copied for that path."""
+    if to is None or to >= len(d["blocks"]):
+        return
+    r = off
+    rets = {}
+    for i in range(lo, hi):
+        b = d["blocks"][i]
+        if b["term"]["t"] == "goto" and b["term"]["to"] == to and b["st"] and b["st"][-1].get("inl") and \
+                b["st"][-1].get("rv", {}).get("r") == "use" and b["st"][-1]["rv"]["a"].get("pl", {}).get("l") == r:
+            rets[i] = b
+    if not rets:
+        return
+    for i in range(lo, hi):
+        a = d["blocks"][i]
+        known = None
+        for st in a["st"]:
+            if st.get("s") == "=" and st["lhs"]["l"] == r:
+                known = _known_value(st, r)
+        if known is None:
+            continue
+        target = _switch_target(d["blocks"][to], dest, known)
+        if target is None:
+            continue
+        if i in rets:
+            # a is itself the converted return block: every path through it carries the known value
+            a["st"] = a["st"] + copy.deepcopy(d["blocks"][to]["st"])
+            a["term"] = {"t": "goto", "to": target, "sp": a["term"].get("sp")}
+            continue
+        if a["term"]["t"] not in ("goto", "drop"):
+            continue
+        # the region between a and the converted return block (drops, drop-flag tests): copied for this path
+        region = []
+        seen = set()
+        work = [a["term"]["to"]]
+        bad = False
+        while work and not bad:
+            c = work.pop()
+            if c in seen:
+                continue
+            if not lo <= c < hi or len(seen) > 24:
+                bad = True
+                break
+            blk = d["blocks"][c]
+            if any(x.get("s") == "=" and x["lhs"]["l"] == r and not x.get("inl") for x in blk["st"]):
+                bad = True
+                break
+            seen.add(c)
+            region.append(c)
+            if c in rets:
+                continue
+            tt = blk["term"]
+            if tt["t"] in ("goto", "drop"):
+                work.append(tt["to"])
+            elif tt["t"] == "switch":
+                work += [b_ for _v, b_ in tt["arms"]] + [tt["otherwise"]]
+            elif tt["t"] == "call" and tt.get("to") is not None:
+                work.append(tt["to"])
+            elif tt["t"] in ("unreachable",):
+                pass
+            else:
+                bad = True
+        if bad or not any(c in rets for c in region):
+            continue
+        mapping = {}
+        for c in region:
+            mapping[c] = len(d["blocks"])
+            d["blocks"].append(copy.deepcopy(d["blocks"][c]))
+        for c in region:
+            nb = d["blocks"][mapping[c]]
+            if c in rets:
+                nb["st"] = nb["st"] + copy.deepcopy(d["blocks"][to]["st"])
+                nb["term"] = {"t": "goto", "to": target, "sp": nb["term"].get("sp")}
+                continue
+            tt = nb["term"]
+            if tt["t"] in ("goto", "drop") or (tt["t"] == "call" and tt.get("to") is not None):
+                tt["to"] = mapping.get(tt["to"], tt["to"])
+            elif tt["t"] == "switch":
+                tt["arms"] = [[v, mapping.get(b_, b_)] for v, b_ in tt["arms"]]
+                tt["otherwise"] = mapping.get(tt["otherwise"], tt["otherwise"])
+        a["term"] = dict(a["term"], to=mapping[a["term"]["to"]])
+
+
+def _thread_known_gotos(d, start=0):
+    """Jump threading inside one function dict: a block that ends `L = <known variant / constant>; goto T`, where T only computes and
+    tests L (`d = discriminant(L); switch d`, or `switch L`), continues at the arm its value selects (through a copy of T's statements).
+    Lowered combinator chains (`a.and_then(f).map(g)`) need this: the Err arm of the first must not reach the Ok arm of the second."""
+    n0 = len(d["blocks"])
+    for ai in range(n0):
+        a = d["blocks"][ai]
+        if a["term"]["t"] != "goto" or not any(x.get("inl") for x in a["st"]):
+            continue
+        ti = a["term"]["to"]
+        if ti >= len(d["blocks"]) or ti == ai:
+            continue
+        tb = d["blocks"][ti]
+        tt = tb["term"]
+        if tt["t"] != "switch" or tt["discr"].get("k") not in ("copy", "move") or tt["discr"]["pl"]["p"]:
+            continue
+        dl = tt["discr"]["pl"]["l"]
+        tested, via_discr = dl, False
+        for x in tb["st"]:
+            if x.get("s") == "=" and x["lhs"]["l"] == dl and not x["lhs"]["p"]:
+                if x["rv"].get("r") == "discr" and not x["rv"]["pl"]["p"]:
+                    tested, via_discr = x["rv"]["pl"]["l"], True
+                else:
+                    tested = None
+        if tested is None:
+            continue
+        if via_discr and any(x.get("s") == "=" and x["lhs"]["l"] == tested for x in tb["st"]):
+            continue            # T itself writes the value it tests
+        known = None
+        for x in a["st"]:
+            if x.get("s") == "=" and x["lhs"]["l"] == tested:
+                known = _known_value(x, tested)
+        if known is None or (known[0] == "variant") != via_discr:
+            continue
+        target = None
+        for v, b_ in tt["arms"]:
+            if v == known[1]:
+                target = b_
+        if target is None:
+            target = tt["otherwise"]
+        ni = len(d["blocks"])
+        d["blocks"].append({"st": copy.deepcopy(tb["st"]), "term": {"t": "goto", "to": target, "sp": tt.get("sp")}, "cleanup": tb.get("cleanup", False), "tsp": tb.get("tsp")})
+        a["term"] = dict(a["term"], to=ni)
+
+
 def view(prog, f, keep=None, depth=2):
     """f with its single-use private helpers spliced in (to `depth` levels).  Returns f itself when there is nothing to splice."""
     cache = getattr(prog, "_inline_views", None)
@@ -191,9 +590,10 @@ def view(prog, f, keep=None, depth=2):
     cur = f
     spliced = []
     spliced_keys = []
-    for _round in range(depth):
-        cands = candidates(prog, cur, keep)
-        if not cands:
+    for _round in range(depth + 1):
+        cands = candidates(prog, cur, keep) if _round < depth else []
+        lows = lower_candidates(prog, cur)
+        if not cands and not lows:
             break
         d = {"key": cur.key, "kind": cur.kind, "sp": cur.sp, "argc": cur.argc, "locals": list(cur.locals), "names": copy.deepcopy(cur.names),
              "parent": cur.parent, "impl_self": cur.impl_self, "impl_trait": cur.impl_trait, "name": cur.name,
@@ -231,8 +631,17 @@ def view(prog, f, keep=None, depth=2):
                                      "sp": gb.tsp, "inl": g.key})
                     nb["term"] = {"t": "goto", "to": to, "sp": gb.tsp}
                 d["blocks"].append(nb)
+            _thread_known_returns(d, base, len(d["blocks"]), off, dest, to)
             spliced.append(g.skey)
             spliced_keys.append(g.key)
+        done_blocks = {bidx for bidx, _g in cands}
+        for bidx, spec, g, cl in lows:
+            if bidx in done_blocks:
+                continue
+            _lower(d, bidx, spec, g, cl, cur.locals)
+            spliced.append(g.skey)
+            spliced_keys.append(g.key)
+        _thread_known_gotos(d)
         nf = Fn(d, cur.crate)
         nf.inlined = list(spliced)
         # an error return of a spliced `helper(..)?` ends the caller too (the `?` that consumes it propagates it): reachability stops there
